@@ -138,3 +138,43 @@ theorem run_truncate_detect {cfg : Cfg} {s : State} {i0 : Nat} {f : FileSt} {j :
   rfl
 
 end FileD.FileRestart
+
+namespace FileD.FileRestart
+open FileD FileD.SpecC06 FileD.SpecC03
+
+/-- a job without any stream offset refuses nothing: every admitted line of the turn is put in flight -/
+theorem fold_inOne_noOffsets {cfg : Cfg} {i : Nat} (calls : List (Nat × Bytes)) :
+    ∀ (s : State), (∃ j, s.jobs i = some j ∧ j.offsets = []) →
+      (∃ j, (calls.foldl (inOne cfg i) s).jobs i = some j ∧ j.offsets = []) ∧
+      (∀ e ∈ s.inflight, e ∈ (calls.foldl (inOne cfg i) s).inflight) ∧
+      ∀ l ∈ calls, cfg.accept l.2 = true → Covers (calls.foldl (inOne cfg i) s).inflight i l := by
+  induction calls with
+  | nil => intro s hj; exact ⟨hj, fun _ h => h, fun l hl => by cases hl⟩
+  | cons c cs ih =>
+    intro s hj
+    obtain ⟨j, hj, ho⟩ := hj
+    -- one call
+    have h1 : (∃ j', (inOne cfg i s c).jobs i = some j' ∧ j'.offsets = []) ∧
+        (∀ e ∈ s.inflight, e ∈ (inOne cfg i s c).inflight) ∧
+        (cfg.accept c.2 = true → Covers (inOne cfg i s c).inflight i c) := by
+      unfold inOne
+      simp only [hj]
+      split
+      · rename_i hacc
+        have hp : passEvent j (cfg.streamOf c.2) c.1 = true := by simp [passEvent, ho, oget]
+        simp only [hp, ↓reduceIte]
+        refine ⟨⟨{ j with lastSeq := s.seqs i (cfg.streamOf c.2) + 1 }, by simp, ho⟩,
+          fun e he => List.mem_append_left _ he, fun _ => ?_⟩
+        exact ⟨_, List.mem_append_right _ (List.mem_singleton.2 rfl), rfl, rfl, rfl⟩
+      · rename_i hacc
+        exact ⟨⟨j, hj, ho⟩, fun _ h => h, fun h => absurd h hacc⟩
+    obtain ⟨h2a, h2b, h2c⟩ := ih (inOne cfg i s c) h1.1
+    simp only [List.foldl_cons]
+    refine ⟨h2a, fun e he => h2b e (h1.2.1 e he), ?_⟩
+    intro l hl hacc
+    rcases List.mem_cons.1 hl with rfl | hl
+    · obtain ⟨e, he, h3⟩ := h1.2.2 hacc
+      exact ⟨e, h2b e he, h3⟩
+    · exact h2c l hl hacc
+
+end FileD.FileRestart
